@@ -118,7 +118,11 @@ def emit(prog, quantum=None, house="h1"):
                         body.extend(act_lines(prog, a, ctx, quantum))
                     body.append("native")
             for a in k["precur"]:
-                if a["k"] == "go":
+                if a["k"] == "go" and a.get("sugar") == "timeout":
+                    body.append("timeout %s" % num(a["needs"][0]["goal"], quantum))   # go next if elapsed >= T
+                elif a["k"] == "go" and a.get("sugar") == "repeat":
+                    body.append("repeat %d" % a["needs"][0]["goal"])                  # go next if recurred >= N
+                elif a["k"] == "go":
                     far = prog["frames"][a["far"]]["name"]
                     body.append("go %s%s" % (far, (" if " + needs_text(prog, a["needs"], quantum)) if a["needs"] else ""))
                 elif a["k"] == "auxif":
